@@ -16,6 +16,7 @@
    it; the goroutines woken by a release run to their next blocking point: `settle`).
    Model only; the theorems are in RegistryProofs.v. *)
 From Coq Require Import NArith List Bool.
+From KV.gen Require Import TxFacts.
 Import ListNotations.
 Open Scope N_scope.
 
@@ -30,6 +31,10 @@ Record config := mkConfig {
   c_peer : bool      (* the context carries a per-client "peer" value (else every transaction is
                         tracked under the connection "unknown" = 0) *)
 }.
+
+(* the limits the binary ships with (read off the source on every run: gen/TxFacts.v) *)
+Definition shipped_config (svc peer : bool) : config :=
+  mkConfig registry_default_idle_ms manager_ro_ttl_ms manager_rw_ttl_ms registry_begin_timeout_ms svc peer.
 
 (* ---------- the reader-writer lock ---------- *)
 
@@ -259,9 +264,12 @@ Definition stale (cfg : config) (s : state) : state * list out :=
 Definition clean_conn (cfg : config) (conn : N) (s : state) : state * list out :=
   settle_all cfg (fold_left purge (filter (fun r => N.eqb (r_conn r) conn) (reg s)) s).
 
-(* GracefulShutdown *)
+(* GracefulShutdown: close(r.stopCleanup) first — unguarded (fact from the source), so a second
+   call panics before it does anything *)
+Definition shutdown_panics (s : state) : bool := stopped s && negb registry_shutdown_close_guarded.
+
 Definition shutdown (cfg : config) (s : state) : state * list out :=
-  if stopped s then (s, [OMaint RPanic])
+  if shutdown_panics s then (s, [OMaint RPanic])
   else
     let r := settle_all cfg (fold_left purge (reg s) (set_stopped s true)) in
     (fst r, OMaint ROk :: snd r).
